@@ -21,6 +21,7 @@ func init() {
 		QuickBudget: 900,
 		Rule: "all function bodies of <=4 statements over the full alphabet and of 5 over a reduced one (thorough: <=5 over the full alphabet) statements over {print, value, defer, guarded defer true/false, return, guarded return true/false, raise, raise of nil / guarded raise of an int (a raise of something that is not an error ends the body like return), " +
 			"failing call, call of a function with its own defers, deferred expression that raises, defer/return whose guard expression raises, a list chain whose block fails with StopIterErr} plus iterator bodies with yield, each run in 7 contexts (direct call, called from a body with its own defer, three nested levels with several defers, as a method, per element of a list chain whose literal has its own defer, inside a try step, iterator next); " +
+			"one function literal (function and method) called 2 (thorough 3) times with every sequence of 8 argument tuples that decide which defers are reached and how the body ends, every body of <=3 statements over 6 parametrised kinds; " +
 			"stdout markers and outcome compared with a defer model; non-trivial = body contains a defer and an exit or a failing statement; distinct = distinct (body, context); round 8: A second small alphabet (bodies <= 3, thorough 4) holds variables named like keywords and guards built with && / || on zeros that are not the cached 0.",
 		Assumptions: []string{
 			"the value of a body whose last statement is a defer is a don't-care (only the trace is compared there)",
@@ -416,7 +417,185 @@ func gen(c *core.Ctx, emit func(tcase)) {
 	}
 }
 
+// ---------------------------------------------------------------- one function literal called several times
+
+// The same function value takes a different way out on every call (its parameters decide which defers are reached and
+// how the body ends): what an earlier call did must not matter. Statement kinds: print, defer, defer guarded by a,
+// return guarded by b, raise guarded by b, failing nested call guarded by b; every body ends with the value 99.
+var againKinds = []string{"P", "D", "DA", "RB", "XB", "CB"}
+
+func againStmt(kind string, k int) string {
+	switch kind {
+	case "P":
+		return fmt.Sprintf(`"p%d".p`, k)
+	case "D":
+		return fmt.Sprintf(`defer "d%d".p`, k)
+	case "DA":
+		return fmt.Sprintf(`defer "d%d".p if a == 1`, k)
+	case "RB":
+		return fmt.Sprintf(`return %d if b == 1`, k)
+	case "XB":
+		return fmt.Sprintf(`raise ValueErr.new("e%d") if b == 2`, k)
+	case "CB":
+		return `fail() if b == 3`
+	}
+	return "?"
+}
+
+type againCase struct {
+	Stmts []string `json:"stmts"`
+	Calls [][2]int `json:"calls"`
+	Form  string   `json:"form"`
+}
+
+func (t againCase) src() string {
+	parts := make([]string, len(t.Stmts))
+	for i, st := range t.Stmts {
+		parts[i] = againStmt(st, i+1)
+	}
+	body := strings.Join(parts, "\n  ") + "\n  99"
+	var calls []string
+	for _, cl := range t.Calls {
+		switch t.Form {
+		case "method":
+			calls = append(calls, fmt.Sprintf("nil.try.{|u| o.f(%d, %d)}.A", cl[0], cl[1]))
+		default:
+			calls = append(calls, fmt.Sprintf("nil.try.{|u| f(%d, %d)}.A", cl[0], cl[1]))
+		}
+	}
+	def := "f := {|a, b|\n  " + body + "\n}\n"
+	if t.Form == "method" {
+		def = "o := {f: m{|a, b|\n  " + body + "\n}}\n"
+	}
+	return def + "[" + strings.Join(calls, ", \"|\".p, ") + "]"
+}
+
+func (t againCase) want() (out, res string) {
+	var parts []string
+	for ci, cl := range t.Calls {
+		a, b := cl[0], cl[1]
+		var defers []string
+		r := "[99, nil]"
+	body:
+		for i, st := range t.Stmts {
+			k := i + 1
+			switch st {
+			case "P":
+				out += fmt.Sprintf("p%d\n", k)
+			case "D":
+				defers = append(defers, fmt.Sprintf("d%d\n", k))
+			case "DA":
+				if a == 1 {
+					defers = append(defers, fmt.Sprintf("d%d\n", k))
+				}
+			case "RB":
+				if b == 1 {
+					r = fmt.Sprintf("[%d, nil]", k)
+					break body
+				}
+			case "XB":
+				if b == 2 {
+					r = fmt.Sprintf("[nil, [ValueErr: e%d]]", k)
+					break body
+				}
+			case "CB":
+				if b == 3 {
+					r = "[nil, [ValueErr: nested]]"
+					break body
+				}
+			}
+		}
+		out += strings.Join(defers, "")
+		parts = append(parts, r)
+		if ci < len(t.Calls)-1 {
+			out += "|\n"
+			parts = append(parts, "nil")
+		}
+	}
+	return out, "[" + strings.Join(parts, ", ") + "]"
+}
+
+func runAgain(c *core.Ctx) {
+	var tuples [][2]int
+	for a := 0; a <= 1; a++ {
+		for b := 0; b <= 3; b++ {
+			tuples = append(tuples, [2]int{a, b})
+		}
+	}
+	depth := c.Pick(2, 3)
+	n := 0
+	total := tk.Batched(c, 800, prelude, func(emit func(againCase)) {
+		var bodies [][]string
+		var rec func(cur []string)
+		rec = func(cur []string) {
+			if len(cur) > 0 {
+				bodies = append(bodies, append([]string{}, cur...))
+			}
+			if len(cur) == 3 {
+				return
+			}
+			for _, k := range againKinds {
+				rec(append(cur, k))
+			}
+		}
+		rec(nil)
+		for _, b := range bodies {
+			hasDefer := false
+			for _, st := range b {
+				if st == "D" || st == "DA" {
+					hasDefer = true
+				}
+			}
+			if !hasDefer {
+				continue
+			}
+			var seq func(cur [][2]int)
+			seq = func(cur [][2]int) {
+				if len(cur) >= 2 {
+					for _, form := range []string{"func", "method"} {
+						if form == "method" && len(cur) > 2 {
+							continue
+						}
+						emit(againCase{Stmts: b, Calls: append([][2]int{}, cur...), Form: form})
+					}
+				}
+				if len(cur) == depth {
+					return
+				}
+				for _, tu := range tuples {
+					seq(append(cur, tu))
+				}
+			}
+			seq(nil)
+		}
+	}, func(t againCase) string { return t.src() }, func(t againCase, o panrun.Obs) {
+		n++
+		if n%4000 == 1 {
+			c.Sample(map[string]interface{}{"family": "called-again", "body": t.Stmts, "calls": t.Calls, "source": t.src()})
+		}
+		c.Nontrivial(1)
+		c.Validated(1)
+		if o.Kind == "syntax" {
+			c.HarnessError("generated program does not parse: %s: %s", t.src(), o.ErrMsg)
+			return
+		}
+		wantOut, wantRes := t.want()
+		ok := o.Kind == "value" && o.Out == wantOut && o.Repr == wantRes
+		c.Outcome("again:" + map[bool]string{true: "ok", false: "differs"}[ok])
+		if !ok {
+			class := "trace"
+			if o.Out == wantOut {
+				class = "outcome"
+			}
+			c.Violation(core.Violation{Key: "called-again/" + t.Form + "/" + class, Case: core.JSON(t), Desc: strings.Join(t.Stmts, ";") + fmt.Sprint(t.Calls), Expected: fmt.Sprintf("out=%q %s", wantOut, wantRes),
+				Observed: fmt.Sprintf("out=%q %s", o.Out, o.Short()), Repro: prelude + t.src() + ".p\n"})
+		}
+	})
+	c.Note("called_again_cases", total)
+}
+
 func run(c *core.Ctx) {
+	runAgain(c)
 	n := 0
 	total := tk.Batched(c, 800, prelude, func(emit func(tcase)) { gen(c, emit) }, func(t tcase) string { return t.src() }, func(t tcase, o panrun.Obs) {
 		n++
@@ -429,6 +608,11 @@ func run(c *core.Ctx) {
 }
 
 func replay(c *core.Ctx, raw json.RawMessage) {
+	var ag againCase
+	if err := json.Unmarshal(raw, &ag); err == nil && len(ag.Calls) > 0 {
+		runAgain(c)
+		return
+	}
 	var t tcase
 	if err := json.Unmarshal(raw, &t); err != nil {
 		c.HarnessError("bad case: %v", err)
